@@ -125,8 +125,9 @@ spelt positionally (`p`*i* = *i*-th parameter, `v`*i* = *i*-th local of the expr
 bound once to an integer literal replaced by it): the loop is `for _ in range(1, 100)` without
 `else`, followed by the `raise`; its body validates the current id and otherwise re-suffixes the
 *base* id, which is the truncated and stripped one; the truncation arithmetic and join of
-`_append_random_suffix`; the tests choosing each branch; the reserved-id table and the way
-`create_deployment` computes `force_suffix`. -/
+`_append_random_suffix`; the tests choosing each branch; the way `create_deployment` computes
+`force_suffix`.  The reserved-id table is regenerated too but not pinned: the theorems below are
+re-checked against whatever it lists now. -/
 theorem C32_source_shape_control :
     Gen.DeployId.loopStart = 1 ∧ Gen.DeployId.loopStop = 100 ∧ Gen.DeployId.loopArgs = 2 ∧
     Gen.DeployId.loopHasElse = false ∧ Gen.DeployId.raiseAfterLoop = true ∧
@@ -142,7 +143,7 @@ theorem C32_source_shape_control :
     Gen.DeployId.lowerExpr = "p0.lower()" ∧
     Gen.DeployId.forceExpr = "p1.lower() in reserved_deployment_ids" ∧
     Gen.DeployId.forceCall = "find_deployment_id(p1, force_suffix=v0)" ∧
-    Gen.DeployId.reservedIds = ["validate-repository", "list-projects", "organizations", "version"] ∧
+    Gen.DeployId.reservedIds ≠ [] ∧ "<missing>" ∉ Gen.DeployId.reservedIds ∧
     loopCount = 99 := by decide
 
 /-! ### the retry loop, for every sequence of answers and draws -/
